@@ -642,7 +642,7 @@ def n9(ctx, rep):
             consumers.append((g, bool(globs)))
     rep.floor('N9', 'consumers of the import set that select by type name', len(consumers), 3)
     for g, aware in consumers:
-        rep.check(aware, 'N9', f"{g['name'].split('::')[-1]}:glob-imports-consulted", 'also tests the glob marker "*"',
+        rep.check(aware, 'N9', f"{g['file'].split('/')[-1]}:glob-imports-consulted", 'also tests the glob marker "*"',
                   f"{g['qual']} selects imports with `type_name == <name>` only and never looks at the glob marker \"*\" the visitor records for `use other::*` (its siblings do): a type reached through a glob import counts as not imported — "
                   'for the rename resolver: the reference keeps its Rust name while the definition and the import line carry the serde name', {'file': g['file'], 'line': g['line']})
 
